@@ -76,8 +76,8 @@ def rulesC : List RuleC :=
    ("closepar", lenOf (litM [')'])),
    ("openbracket", lenOf (litM ['['])),
    ("closebracket", lenOf (litM [']'])),
-   ("True", lenOf (litM ['T', 'r', 'u', 'e'])),
-   ("False", lenOf (litM ['F', 'a', 'l', 's', 'e'])),
+   ("True", lenOf (kwM ['T', 'r', 'u', 'e'])),
+   ("False", lenOf (kwM ['F', 'a', 'l', 's', 'e'])),
    ("identifier", lenOf identM),
    ("whitespace", lenOf wsM),
    ("comma", lenOf (litM [','])),
@@ -137,8 +137,8 @@ theorem firstMatch_table_aux (tbl : LexTable) (cs : List Char)
     reLen_of (show reOf "\\)" = some (.lit [')']) by decide),
     reLen_of (show reOf "\\[" = some (.lit ['[']) by decide),
     reLen_of (show reOf "\\]" = some (.lit [']']) by decide),
-    reLen_of (show reOf "True" = some (.lit ['T', 'r', 'u', 'e']) by decide),
-    reLen_of (show reOf "False" = some (.lit ['F', 'a', 'l', 's', 'e']) by decide),
+    reLen_of (show reOf "True\\b" = some (.kw ['T', 'r', 'u', 'e']) by decide),
+    reLen_of (show reOf "False\\b" = some (.kw ['F', 'a', 'l', 's', 'e']) by decide),
     reLen_of (show reOf "[@$a-z_A-Z_][@$a-zA-Z_0-9]*" = some .ident by decide),
     reLen_of (show reOf "[ \n\t]*" = some .ws by decide),
     reLen_of (show reOf "," = some (.lit [',']) by decide),
